@@ -260,6 +260,77 @@ func runCopy(cfg *common.Config, rec *common.Recorder, idx uint64, rng *common.R
 		for i, s := range g.segs {
 			copy(s, srcCopy[i])
 		}
+		// same-message copy: copy the (struct) copy once more inside the
+		// destination message; the second copy must be equal and must not
+		// share storage with the first (scribbling over it leaves the first
+		// intact).
+		if expect.Kind == ref.KStruct && capsCopied == 0 {
+			d1, err := readBack()
+			if err == nil && d1.Struct().IsValid() {
+				sdw, spw := len(expect.Data)/8, len(expect.Ptrs)
+				var d2 capnp.Struct
+				var extra capnp.Ptr
+				var kind2 string
+				switch rng.Intn(3) {
+				case 0:
+					kind2 = "same-message/Struct.CopyFrom"
+					d2, err = capnp.NewStruct(first, capnp.ObjectSize{DataSize: capnp.Size(sdw * 8), PointerCount: uint16(spw)})
+					if err == nil {
+						err = d2.CopyFrom(d1.Struct())
+					}
+				case 1:
+					kind2 = "same-message/List.SetStruct"
+					var cl capnp.List
+					cl, err = capnp.NewCompositeList(first, capnp.ObjectSize{DataSize: capnp.Size(sdw * 8), PointerCount: uint16(spw)}, 2)
+					if err == nil {
+						err = cl.SetStruct(1, d1.Struct())
+						d2 = cl.Struct(1)
+					}
+				default:
+					// assigning a list member copies it (copy-on-assign)
+					kind2 = "same-message/SetPtr-of-list-member"
+					var cl capnp.List
+					cl, err = capnp.NewCompositeList(first, capnp.ObjectSize{DataSize: capnp.Size(sdw * 8), PointerCount: uint16(spw)}, 1)
+					if err == nil {
+						err = cl.SetStruct(0, d1.Struct())
+					}
+					if err == nil {
+						var h capnp.Struct
+						h, err = capnp.NewStruct(first, capnp.ObjectSize{PointerCount: 1})
+						if err == nil {
+							err = h.SetPtr(0, cl.Struct(0).ToPtr())
+						}
+						if err == nil {
+							var p2 capnp.Ptr
+							p2, err = h.Ptr(0)
+							d2 = p2.Struct()
+							// the member itself is a third copy; scribble over it too
+							extra = cl.Struct(0).ToPtr()
+						}
+					}
+				}
+				rec.Count("dest_"+kind2, 1)
+				if err != nil {
+					serr = fmt.Errorf("%s: %v", kind2, err)
+					return
+				}
+				dst.ResetReadLimit(1 << 40)
+				if sdw+spw > 0 {
+					if m := walk.NewGuided().Ptr(d2.ToPtr(), expectIdx, "copy2", 1); m != nil {
+						mis, stage, destKind = m, "after-copy", kind2
+						return
+					}
+					scribble(d2.ToPtr())
+					if extra.IsValid() {
+						scribble(extra)
+					}
+					if !check("after-" + kind2 + "-scribbled") {
+						destKind = kind2
+						return
+					}
+				}
+			}
+		}
 		if mutateDst != nil {
 			mutateDst()
 		}
